@@ -97,12 +97,18 @@ def main():
     if os.path.exists(ex):
         extra = json.load(open(ex))
     checks = []
+    FP_IDS = {"C01", "C02", "C03", "C04", "C10", "C11", "C12", "C13", "C14", "C15", "C17", "C18"}
+    FP_TECH = "; plus a failpoint pass: the same workload and oracles once more in a gofail (v0.2.0) build whose failpoints - inserted syntactically in front of every statement of varlink and varlink/internal/ctxio that can take part in an interleaving - inject seeded delays (never values or errors)"
+    FP_TEXT = " The workload is run a second time (quick-tier case counts) in a failpoint build of a scratch copy of the tree under test while a seeded scheduler delays the library at changing sites (DESIGN 2.3a); the evidence reports the sites, the sites reached while active and the delays injected under fp_*."
     table = dict(CHECKS)
     table.update({k: tuple(v) for k, v in extra.get("checks", {}).items()})
     for i in ids:
         if i not in table:
             continue
         eng, cat, text, note, tech, ref = table[i]
+        if i in FP_IDS:
+            tech += FP_TECH
+            text += FP_TEXT
         checks.append({
             "property_id": i,
             "quick_cmd": f"./check {i} quick",
@@ -124,7 +130,7 @@ def main():
         "setup_cmd": "./check --build",
         "hooks": {
             "guard": "verif",
-            "enable": "go build -tags verif -overlay <map>: /verif/overlay/varlink_whitebox.go and varlink_whitebox_active.go are injected as /repo/varlink/zz_verif_whitebox.go and zz_verif_whitebox_active.go at build time (if the tree under test has no Service.conncounter, varlink_whitebox_noactive.go is used instead and the monitors run without the connection count); nothing is committed into /repo for instrumentation",
+            "enable": "go build -tags verif -overlay <map>: /verif/overlay/varlink_whitebox.go and varlink_whitebox_active.go are injected as /repo/varlink/zz_verif_whitebox.go and zz_verif_whitebox_active.go at build time (if the tree under test has no Service.conncounter, varlink_whitebox_noactive.go is used instead and the monitors run without the connection count); nothing is committed into /repo for instrumentation. Failpoint pass (C01-C04, C10-C15, C17, C18): ./check copies $VERIF_REPO/varlink to a scratch directory under /tmp, inserts gofail failpoint comments (harness/cmd/fpinsert), runs `gofail enable`, builds the driver against that copy with -tags \"verif verif_fp\" and removes the copy; VERIF_NO_FP=1 switches the pass off",
             "baseline_off_cmd": "cd /repo && GOFLAGS=-mod=mod GOPROXY=off GOSUMDB=off GOTOOLCHAIN=local go test -json -vet=off -count=1 -timeout 25m ./...",
             "source_commits": [],
             "add_only": True,
